@@ -448,13 +448,13 @@ func RunUnaryExpr(ctx *Task, expr *ast.UnaryExpr) (any, ast.DType, *errchain.PlE
 				if val {
 					return int64(-1), ast.Int, nil
 				} else {
-					return 0, ast.Int, nil
+					return int64(0), ast.Int, nil
 				}
 			} else {
 				if val {
 					return int64(1), ast.Int, nil
 				} else {
-					return 0, ast.Int, nil
+					return int64(0), ast.Int, nil
 				}
 			}
 		case ast.Float:
